@@ -11,6 +11,8 @@ for mp in sorted(glob.glob("/verif/seeded/*/meta.json")):
     if len(summ) > 150:
         summ = summ[:147] + "..."
     st = "caught at once" if first else ("caught after strengthening" if now else "**missed**")
+    if m.get("strengthened_before_first_run") and now:
+        st = "caught after strengthening (" + m["strengthened_before_first_run"] + ")"
     rows.append(f"| {m['id']} | {m['property']} | {summ} | {', '.join(now) or '-'} | {st} |")
 print("| seed | property | change | caught by | status |\n|---|---|---|---|---|")
 print("\n".join(rows))
